@@ -7,8 +7,8 @@ from . import typestate as ts
 
 _CACHE = {}
 
-QUICK_ENVS = ["quick", "dilation"]
-THOROUGH_ENVS = ["quick", "dilation", "dilate", "reentrant", "phases4", "phases-dilate", "phases-unknown", "postclose", "dilation-full"]
+QUICK_ENVS = ["quick", "dilation", "dilation-oldpeer"]
+THOROUGH_ENVS = ["quick", "dilation", "dilation-oldpeer", "dilate", "reentrant", "phases4", "phases-dilate", "phases-unknown", "postclose", "dilation-full"]
 
 
 class Summary:
